@@ -618,6 +618,13 @@ Qed.
 (* the monitor                                                                                  *)
 (* ------------------------------------------------------------------------------------------ *)
 
+Ltac split_andb := repeat match goal with X : (_ && _) = true |- _ => apply andb_prop in X; destruct X end.
+Ltac conv_cmp := repeat match goal with
+  | X : (_ =? _)%Z = true |- _ => apply Z.eqb_eq in X
+  | X : (_ <=? _)%Z = true |- _ => apply Z.leb_le in X
+  | X : (_ <? _)%Z = true |- _ => apply Z.ltb_lt in X
+  end.
+
 Section Monitor.
   (* the position-keyed payload of one direction (a function of direction, offset and seed in the
      harness); the harness reports d_correct = 1 exactly when the i-th byte read was [pay i] for all i *)
@@ -637,28 +644,21 @@ Section Monitor.
     dm_correct : d_correct d = 1%Z /\ d_bad d = (-1)%Z;
     dm_prefix : is_prefix (bytes_upto (d_read d)) (bytes_upto (d_written d));
     dm_eof : d_eof d = 1%Z -> bytes_upto (d_read d) = bytes_upto (d_written d) /\ d_rerr d = 0%Z;
-    dm_err : d_eof d <> 1%Z -> d_stopped d = 1%Z \/ d_rerr d <> 0%Z \/ d_rstarted d = 0%Z;
-    dm_nohang : d_wpend d = 0%Z /\ d_rpend d = 0%Z
+    dm_err : d_eof d <> 1%Z -> d_stopped d = 1%Z \/ d_rerr d <> 0%Z \/ d_rstarted d = 0%Z \/ d_rpend d = 1%Z
   }.
 
   Lemma dir_ok_sound : forall d, dir_ok d = true -> dir_meaning d.
   Proof.
-    intros d H. unfold dir_ok in H.
-    repeat (apply andb_prop in H; destruct H as [H ?]).
-    repeat match goal with
-    | X : (_ =? _)%Z = true |- _ => apply Z.eqb_eq in X
-    | X : (_ <=? _)%Z = true |- _ => apply Z.leb_le in X
-    end.
+    intros d H. unfold dir_ok in H. split_andb. conv_cmp.
     constructor; auto.
     - apply bytes_upto_prefix. lia.
-    - intros E. rewrite E in *. simpl in *. apply andb_prop in H2. destruct H2 as [A B].
-      apply Z.eqb_eq in A. apply Z.eqb_eq in B. rewrite A. auto.
+    - intros E.
+      match goal with X : (if ?c then _ else _) = true |- _ => rewrite E in X; simpl in X end.
+      split_andb. conv_cmp. split; [congruence | assumption].
     - intros E. destruct (Z.eqb_spec (d_eof d) 1); [contradiction|].
-      apply orb_prop in H2. destruct H2 as [H2|H2].
-      + apply orb_prop in H2. destruct H2 as [H2|H2].
-        * left. apply Z.eqb_eq. exact H2.
-        * right. left. intros F. rewrite F in H2. discriminate.
-      + right. right. apply Z.eqb_eq. exact H2.
+      repeat match goal with X : (_ || _) = true |- _ => apply orb_prop in X; destruct X end; conv_cmp; auto.
+      right. left. intros F.
+      match goal with X : negb (_ =? 0)%Z = true |- _ => rewrite F in X; discriminate end.
   Qed.
 End Monitor.
 
@@ -668,6 +668,9 @@ Record sim_meaning (pay0 pay1 : nat -> N) (case out : list Z) : Prop := mkSM {
   sm_no_ghost_bytes : nthz out 43 = 0%Z;
   sm_c2s : dir_meaning pay0 (dobs_at out 6);
   sm_s2c : dir_meaning pay1 (dobs_at out 24);
+  (* nothing is left pending, except possibly when a live peer's application walked away from reading *)
+  sm_nohang : ((nthz case 1 mod 3 = 0)%Z -> nthz case 19 = 0%Z) ->
+      forall d, d = dobs_at out 6 \/ d = dobs_at out 24 -> d_wpend d = 0%Z /\ d_rpend d = 0%Z;
   (* peer vanished / secret unknown: no operation stayed blocked for more than idle timeout + slack
      after the later of its start and the reference time *)
   sm_prompt : (nthz case 1 mod 3 <> 0)%Z ->
@@ -676,38 +679,36 @@ Record sim_meaning (pay0 pay1 : nat -> N) (case out : list Z) : Prop := mkSM {
       (d_wwait (dobs_at out 24) <= nthz out 1 + nthz out 3)%Z /\ (d_rwait (dobs_at out 24) <= nthz out 1 + nthz out 3)%Z;
   (* peer alive and knowing the secret, nobody walks away: the exchange completes in both directions *)
   sm_complete : (nthz case 1 mod 3 = 0)%Z -> nthz case 19 = 0%Z ->
+      (nthz case 6 <= 100)%Z -> (nthz case 7 <= 100)%Z ->
       forall d, d = dobs_at out 6 \/ d = dobs_at out 24 ->
       d_eof d = 1%Z /\ d_read d = d_intended d /\ d_written d = d_intended d /\ d_werr d = 0%Z /\ d_rerr d = 0%Z;
-  sm_secret : (nthz case 1 mod 3 = 2)%Z -> d_rerr (dobs_at out 24) <> 0%Z /\ d_eof (dobs_at out 24) = 0%Z
+  sm_secret : (nthz case 1 mod 3 = 2)%Z ->
+      d_eof (dobs_at out 24) = 0%Z /\ (d_stopped (dobs_at out 24) = 1%Z \/ d_rerr (dobs_at out 24) <> 0%Z)
 }.
 
 Theorem dcsim_judge_sound : forall pay0 pay1 case out,
   dcsim_judge case out = true -> sim_meaning pay0 pay1 case out.
 Proof.
-  intros pay0 pay1 case out H. unfold dcsim_judge in H.
-  repeat (apply andb_prop in H; destruct H as [H ?]).
+  intros pay0 pay1 case out H. unfold dcsim_judge in H. split_andb.
   constructor.
-  - apply Z.eqb_eq. assumption.
-  - apply Z.eqb_eq. assumption.
+  - conv_cmp. assumption.
+  - conv_cmp. assumption.
   - apply dir_ok_sound. assumption.
   - apply dir_ok_sound. assumption.
+  - intros Himp d Hd. destruct (Z.eqb_spec (nthz case 1 mod 3) 0) as [e|ne].
+    + rewrite (Himp e) in *. simpl in *. split_andb. unfold dir_nohang in *. split_andb. conv_cmp.
+      destruct Hd as [-> | ->]; auto.
+    + split_andb. unfold dir_nohang in *. split_andb. conv_cmp. destruct Hd as [-> | ->]; auto.
   - intros Hs. destruct (Z.eqb_spec (nthz case 1 mod 3) 0); [contradiction|].
-    repeat (match goal with X : (_ && _) = true |- _ => apply andb_prop in X; destruct X end).
-    unfold dir_prompt in *.
-    repeat (match goal with X : (_ && _) = true |- _ => apply andb_prop in X; destruct X end).
-    repeat match goal with X : (_ <=? _)%Z = true |- _ => apply Z.leb_le in X end.
-    auto.
-  - intros Hs H19 d Hd. rewrite Hs, H19 in *. simpl in *.
-    repeat (match goal with X : (_ && _) = true |- _ => apply andb_prop in X; destruct X end).
-    unfold dir_complete in *.
-    repeat (match goal with X : (_ && _) = true |- _ => apply andb_prop in X; destruct X end).
-    repeat match goal with X : (_ =? _)%Z = true |- _ => apply Z.eqb_eq in X end.
-    destruct Hd as [-> | ->]; auto.
-  - intros Hs. rewrite Hs in *. simpl in *.
-    repeat (match goal with X : (_ && _) = true |- _ => apply andb_prop in X; destruct X end).
-    split.
-    + intros F. match goal with X : negb (_ =? 0)%Z = true |- _ => rewrite F in X; discriminate end.
-    + apply Z.eqb_eq. assumption.
+    split_andb. unfold dir_prompt in *. split_andb. conv_cmp. auto.
+  - intros Hs H19 L6 L7 d Hd. rewrite Hs, H19 in *. simpl in *.
+    apply Z.leb_le in L6. apply Z.leb_le in L7. rewrite L6, L7 in *. simpl in *. split_andb.
+    unfold dir_complete in *. split_andb. conv_cmp. destruct Hd as [-> | ->]; auto.
+  - intros Hs. rewrite Hs in *. simpl in *. split_andb. split.
+    + conv_cmp. assumption.
+    + match goal with X : (_ || _) = true |- _ => apply orb_prop in X; destruct X as [Y|Y] end.
+      * left. conv_cmp. assumption.
+      * right. intros F. rewrite F in Y. discriminate.
 Qed.
 
 (* the monitor's content conditions are consequences of the model's theorem: the observation of any
